@@ -207,6 +207,9 @@ class CallMixin:
                 return self.call_function(fi, [self.class_ref(v)], {})
             if isinstance(v, VRef) and v.typ == ty.ANY:
                 return VInt(self.llen(VRef(v.term, ty.parse('list[any]'), v.st)))
+            if isinstance(v, VRange):
+                lo, hi = (x if z3.is_expr(x) else self.arith_term(x) for x in (v.lo, v.hi))
+                return VInt(z3.If(hi > lo, hi - lo, 0))
             raise Unsupported(f'len of {type(v).__name__}')
         if name == 'range':
             if len(args) == 1:
